@@ -1,6 +1,8 @@
 package main
 
 import (
+	"sync"
+	"runtime"
 	"bytes"
 	"crypto/hmac"
 	"crypto/sha1"
@@ -266,11 +268,63 @@ func runC04(o *out, thorough bool, r *rng, _ []string) map[string]interface{} {
 	return nil
 }
 
+// concurrentFingerprints: goroutines (4 per P) each add FINGERPRINT to and check messages of their own,
+// nothing shared between them: every value equals the CRC computed independently, every check passes, and a
+// message with one flipped bit is rejected
+func concurrentFingerprints(o *out, rounds int) {
+	var wg sync.WaitGroup
+	var mu sync.Mutex
+	bad := ""
+	for w := 0; w < 4*runtime.GOMAXPROCS(0); w++ {
+		wg.Add(1)
+		go func(w int) {
+			defer wg.Done()
+			rr := newRng(uint64(9000 + w))
+			for i := 0; i < rounds; i++ {
+				m := new(stun.Message)
+				m.TransactionID = agentTID(w*1000 + i%1000)
+				m.Type = stun.MessageType{Method: stun.MethodBinding, Class: stun.ClassRequest}
+				m.WriteHeader()
+				m.Add(stun.AttrSoftware, rr.bytes(rr.intn(900)))
+				if err := stun.Fingerprint.AddTo(m); err != nil {
+					continue
+				}
+				n := len(m.Raw)
+				want := crc32.ChecksumIEEE(m.Raw[:n-8]) ^ 0x5354554e
+				got := uint32(m.Raw[n-4])<<24 | uint32(m.Raw[n-3])<<16 | uint32(m.Raw[n-2])<<8 | uint32(m.Raw[n-1])
+				d := new(stun.Message)
+				derr := stun.Decode(m.Raw, d)
+				cerr := error(nil)
+				if derr == nil {
+					cerr = stun.Fingerprint.Check(d)
+				}
+				flipped := append([]byte(nil), m.Raw...)
+				flipped[20+rr.intn(n-28)] ^= 1 << uint(rr.intn(8))
+				d2 := new(stun.Message)
+				accepted := stun.Decode(flipped, d2) == nil && stun.Fingerprint.Check(d2) == nil
+				if got != want || derr != nil || cerr != nil || accepted {
+					mu.Lock()
+					if bad == "" {
+						bad = fmt.Sprintf("701 %s - 7,0 (goroutine %d round %d: value %08x want %08x, decode=%v check=%v, one-bit-flip accepted=%v)", fHex(m.Raw), w, i, got, want, derr, cerr, accepted)
+					}
+					mu.Unlock()
+				}
+			}
+		}(w)
+	}
+	wg.Wait()
+	if bad != "" {
+		o.failFor("C05", "concurrent-fingerprint-wrong", bad)
+	}
+	o.countN("concurrent-fingerprints", rounds*4*runtime.GOMAXPROCS(0))
+}
+
 func runC05(o *out, thorough bool, r *rng, _ []string) map[string]interface{} {
 	nmsg := 40
 	if thorough {
 		nmsg = 600
 	}
+	concurrentFingerprints(o, map[bool]int{false: 300, true: 3000}[thorough])
 	for i := 0; i < nmsg; i++ {
 		key := r.bytes(r.intn(30))
 		data := signedMessage(r, key, r.intn(5), 0, i%2 == 0, true)
